@@ -9,7 +9,7 @@ ASSUMPTIONS = [
     "quiescence is decided by the in-flight counter of the verif hooks; schedules are the release orders of the parked queue (every order the stepped harness draws), "
     "not OS-level interleavings inside one exec",
     "the reference interpretation covers the fragment without needs / mixed steps / several else branches; those shapes are decided by the monitor and the operational model only",
-    "timeouts and sub-processes are not generated here (C19 / C15)",
+    "timeouts are not generated here (C19); sub-processes and reloads have a small family of their own (a caller waiting for its child, a catch-revived step, dropped from the cache or restarted before the answer)",
 ]
 
 TERMINAL = {"completed", "submitted", "backed", "cancelled", "error", "aborted", "skipped", "removed"}
@@ -192,6 +192,8 @@ def run(ctx):
                 ctx.violation("C01|engine-vs-reference", f"after op {i}: engine open interrupts {opens} finished={terminal}; reference opens {sorted(pt['opens'])} done={pt['done']}",
                               {"scenario": scs[k], "op": i, "answered": answered})
                 break
+    nrc = judge_reload_and_call(ctx, reload_and_call_scenarios(ctx.seed, 40 if ctx.tier == "quick" else 800))
+    feat["reload-and-call"] = nrc
     for sc in scs:
         for f in sc["features"]:
             feat[f] = feat.get(f, 0) + 1
@@ -203,6 +205,94 @@ def run(ctx):
                        "non-trivial = some task was pending at a quiescent point; distinct by (model, op prefix)")
     ctx.cov["clauses_proved"] = ["Ref: unfinished => an unanswered interrupt is open (all workflows, conditions, answer sets)", "Ref: all answered => finished; done is monotone"]
     ctx.cov["clauses_not_proved"] = ["the engine refines Ref (three-way differential at every quiescent point)", "needs / mixed / two-else shapes (monitor + Op model only)"]
+
+
+def reload_and_call_scenarios(seed, n):
+    """progress across reloads and sub-processes: a caller waits for its child under both retention settings; a step revived by its catch waits in its
+    catch steps; the waiting process is dropped from the cache (or the engine restarted on SQLite) before the client answers"""
+    scs = []
+    for i in range(n):
+        rng = Rng(seed * 2750161 + i)
+        keep = rng.chance(1, 2)
+        store = "sqlite" if i % 3 == 2 else "mem"
+        cut = ["restart"] if store == "sqlite" else ["evict", "p1"]
+        if i % 2 == 0:
+            child = {"id": "c1", "steps": [{"id": "cs1", "acts": [{"id": "ca1", "uses": gen.IRQ, "key": "kca1"}]}], "outputs": {"r": None}}
+            parent = {"id": "m1", "steps": [{"id": "s1", "acts": [{"id": "a1", "uses": "acts.core.subflow", "params": {"to": "c1", "options": {"pid": "p1-a1"}}}]},
+                                            {"id": "s2", "acts": [{"id": "a9", "uses": gen.IRQ, "key": "ka9"}]}]}
+            models = [parent, child]
+            ops = [["deploy", 0], ["deploy", 1], ["start", "m1", {"pid": "p1"}], ["runall"]]
+            if rng.chance(1, 2):
+                ops.append(cut)
+            ops += [["act", rng.pick(["next", "next", "skip"]), "p1-a1", {"open": 0}, {"r": 1}], ["runall"]]
+            kind = "call"
+        else:
+            handler = [{"id": "cs", "acts": [{"id": "fix", "uses": gen.IRQ, "key": "kfix"}]}]
+            s1 = {"id": "s1", "acts": [{"id": "a1", "uses": gen.IRQ, "key": "ka1"}]}
+            if rng.chance(1, 2):
+                s1["catches"] = [{"on": "e1", "steps": handler}]
+            else:
+                s1["acts"][0]["catches"] = [{"on": "e1", "steps": handler}]
+            models = [{"id": "m1", "steps": [s1, {"id": "s2", "acts": [{"id": "a9", "uses": gen.IRQ, "key": "ka9"}]}]}]
+            ops = [["deploy", 0], ["start", "m1", {"pid": "p1"}], ["runall"], ["act", "error", "p1", {"nid": "a1", "k": 0}, {"ecode": "e1", "message": "x"}], ["runall"], cut]
+            kind = "catch"
+        for _ in range(4):
+            ops += [["act", "next", "p1", {"open": 0}, {}], ["runall"]]
+        scs.append({"id": f"c01-rc-{seed}-{i}", "config": {"keep": keep, "store": store, "dump_each": True}, "models": models, "ops": ops, "exprs": {}, "kind": kind,
+                    "features": ["reload", kind]})
+    return scs
+
+
+def judge_reload_and_call(ctx, scs):
+    results = ctx.harness("run", [{k: v for k, v in sc.items() if k not in ("kind",)} for sc in scs], tag="rc")
+    reqs, where = [], []
+    for k, (sc, res) in enumerate(zip(scs, results)):
+        started, terminal = [], set()
+        for st in res.get("steps", []):
+            obs = st["obs"]
+            for o in obs:
+                if o.get("k") == "pev" and o.get("chan") == "default":
+                    if o["ev"] == "start" and o["pid"] not in started:
+                        started.append(o["pid"])
+                    elif o["ev"] in ("complete", "error"):
+                        terminal.add(o["pid"])
+            q = [o for o in obs if o.get("k") == "queue"]
+            if not q or q[0]["q"]:
+                continue
+            dumps = {o["pid"]: o for o in obs if o.get("k") == "dump" and not o.get("absent")}
+            procs = []
+            for pid in started:
+                if pid in terminal:
+                    procs.append({"pid": pid, "terminal": True, "tasks": []})
+                elif pid in dumps:
+                    kids = sum(1 for c in started if c.startswith(pid + "-") and c not in terminal)
+                    procs.append({"pid": pid, "terminal": False, "tasks": [[t["kind"], t["state"]] for t in dumps[pid]["tasks"]], "children": kids})
+                # a process that is neither terminal nor in the cache is judged when it comes back
+            reqs.append({"cmd": "c01.monitor", "queue": 0, "procs": procs})
+            where.append((k, st["op"]))
+    verdicts = ctx.driver(reqs, tag="drc")
+    flagged = set()
+    for (k, i), vd in zip(where, verdicts):
+        ctx.cov["evaluations"] += 1
+        if k in flagged or not isinstance(vd, dict) or vd.get("ok") is not False:
+            continue
+        flagged.add(k)
+        sc = scs[k]
+        ctx.cov["monitor_failures"] += 1
+        st = vd["stranded"][0]
+        ctx.violation(f"C01|stranded|{sc['kind']}-{'keep' if sc['config']['keep'] else 'default'}", f"quiescent after op {i} with nothing to answer: process {st['pid']} stranded "
+                      f"{sorted(set(a + ':' + b for a, b in st['tasks']))}; {sc['config']}", {"scenario": sc, "op": i})
+    # everything was answered: every started process has finished
+    for k, (sc, res) in enumerate(zip(scs, results)):
+        if k in flagged:
+            continue
+        started = {o["pid"] for st in res.get("steps", []) for o in st["obs"] if o.get("k") == "pev" and o.get("chan") == "default" and o["ev"] == "start"}
+        ended = {o["pid"] for st in res.get("steps", []) for o in st["obs"] if o.get("k") == "pev" and o.get("chan") == "default" and o["ev"] in ("complete", "error")}
+        if started - ended:
+            ctx.violation(f"C01|not-finished-after-all-answers|{sc['kind']}", f"every interrupt was answered but {sorted(started - ended)} did not finish ({sc['config']})", {"scenario": sc})
+        else:
+            ctx.nontrivial(["rc", sc["models"], sc["ops"], sc["config"]])
+    return len(scs)
 
 
 def wait_cycles(w):
